@@ -86,22 +86,22 @@ Print Assumptions C04_simulation.
 (* the key lemma in the property's wording: a call from inside a try body that throws leaves the caller's view of
    storage, native settings and notifications exactly as it was at the call — whatever its layered and un-layered
    sub-callees did (token movements, votes, claims, cache flags included) *)
-Theorem C04_failed_call_no_trace_partial : forall pol c f body cid fl s s',
+Theorem C04_failed_call_no_trace_partial : forall pol via c f body cid fl s s',
   guard pol body = true -> ne s ->
-  exec pol (Call c f body) cid fl true s = Thrown s' -> bad s' = false ->
+  exec pol (CallV via c f body) cid fl true s = Thrown s' -> bad s' = false ->
   abs s' = rollback (abs s).
 Proof. exact failed_call_no_trace. Qed.
 Print Assumptions C04_failed_call_no_trace_partial.
 
 (* before_after_kept: a failing call caught on the spot is as if it were not there; everything before and after it
    has the same effect *)
-Theorem C04_before_after_kept_partial : forall pol pre post c f body cid fl it s,
-  guard pol (Seq pre (Seq (caught c f body) post)) = true ->
+Theorem C04_before_after_kept_partial : forall pol pre post via c f body cid fl it s,
+  guard pol (Seq pre (Seq (caught via c f body) post)) = true ->
   ne s -> exc s = false ->
-  (forall s1, exec pol pre cid fl it s = Normal s1 -> exists s2, exec pol (Call c f body) cid fl true s1 = Thrown s2) ->
-  bad (rstate (exec pol (Seq pre (Seq (caught c f body) post)) cid fl it s)) = false ->
+  (forall s1, exec pol pre cid fl it s = Normal s1 -> exists s2, exec pol (CallV via c f body) cid fl true s1 = Thrown s2) ->
+  bad (rstate (exec pol (Seq pre (Seq (caught via c f body) post)) cid fl it s)) = false ->
   bad (rstate (exec pol (Seq pre post) cid fl it s)) = false ->
-  obs_eq (exec pol (Seq pre (Seq (caught c f body) post)) cid fl it s) (exec pol (Seq pre post) cid fl it s).
+  obs_eq (exec pol (Seq pre (Seq (caught via c f body) post)) cid fl it s) (exec pol (Seq pre post) cid fl it s).
 Proof. exact caught_call_no_trace. Qed.
 Print Assumptions C04_before_after_kept_partial.
 
@@ -174,6 +174,16 @@ Theorem C04_handler_stack_machine : forall pol p cid fl hs s,
   exec_h pol p cid fl hs s = exec pol p cid fl (has_try pol hs) s.
 Proof. exact exec_h_exec. Qed.
 Print Assumptions C04_handler_stack_machine.
+
+(* the two call forms: System.Contract.Call and the CALLT opcode through a method token of the calling contract's NEF
+   (LoadToken -> callInternal).  The semantics ignores the form: at every position of every call tree layers are pushed,
+   committed and dropped, notifications truncated, faults and throws propagated identically *)
+Theorem C04_call_form_irrelevant : forall pol p cid fl it s, exec pol p cid fl it s = exec pol (erase p) cid fl it s.
+Proof. exact call_form_irrelevant. Qed.
+Print Assumptions C04_call_form_irrelevant.
+Theorem C04_call_form_irrelevant_tx : forall pol base p, run_tx pol base p = run_tx pol base (erase p).
+Proof. exact call_form_irrelevant_tx. Qed.
+Print Assumptions C04_call_form_irrelevant_tx.
 
 (* non-vacuity *)
 Example C04_example_guarded_tree :
